@@ -40,7 +40,9 @@ func docCase(c Case, e *env) (*docGen, string, string) {
 		g.mediaSeps = true
 	case "C09":
 		g.noTitle = c.ID%3 == 0
+		g.tightInline = true
 	}
+	g.blanksBetween = e.prop == "C03" || e.prop == "C02" || e.prop == "C09"
 	g.wrapIn = c.str("wrap", "")
 	if c.boolean("canonical", false) {
 		g.canonical = true
@@ -92,6 +94,12 @@ func runDoc(c Case, e *env) []Event {
 func countDoc(src *Src, obs *Obs) {
 	if len(obs.Txt) > 0 {
 		count("with_output")
+	}
+	if obs.Glued > 0 {
+		count("words_across_inline_elements")
+	}
+	if len(src.glued) > 0 {
+		count("source_words_across_inline_elements")
 	}
 	kept := map[int]bool{}
 	for _, r := range obs.Txt {
